@@ -304,12 +304,21 @@ func c07Check(run *Run, c *fedCase, r *rand.Rand, worker int) {
 func runC07(run *Run, replay string) Spec {
 	spec := Spec{
 		Level:       "translation_validation",
-		Rule:        "cases as in C01; after the fault-free run, (S) every request to one subgraph or (K) every request with one (subgraph, operation) key is failed with one of six fault kinds (transport error, HTTP 500, empty body, non-JSON body, errors without data, wrong entity count): one well-formed response in bounded time, at least one error, the data is the fault-free data with subtrees nulled, in mode S exactly the reference execution with that subgraph's exclusive fields unavailable (Lean executor), and every request sent has a fault-free counterpart with the same operation and a subset of its representations. non-trivial = a fault was actually injected; distinct = distinct (case, victim, fault)",
+		Rule:        "cases as in C01; after the fault-free run, (S) every request to one subgraph or (K) every request with one (subgraph, operation) key is failed with one of six fault kinds (transport error, HTTP 500, empty body, non-JSON body, errors without data, wrong entity count): one well-formed response in bounded time, at least one error, the data is the fault-free data with subtrees nulled, in mode S exactly the reference execution with that subgraph's exclusive fields unavailable (Lean executor), and every request sent has a fault-free counterpart with the same operation and a subset of its representations; in addition taintedObjects.filterOutTainted is run (build-tag hook) on generated JSON items with marked entities: exactly the items that are or contain a marked entity are dropped (model-independent oracle), as the Lean model Misc.Taint says. non-trivial = a fault was actually injected; distinct = distinct (case, victim, fault)",
 		TrustedBase: []string{"the Lean reference executor with unavailable coordinates as the meaning of 'null-propagated'", "fault injection in the harness' RoundTripper; exclusive-field computation from the subgraph SDLs"},
 		Assumptions: []string{"mode S compares exactly only because in layout L1 a field is either exclusive to one subgraph or not decided by it; partial failures (mode K) are judged by the nulling order and the request rule", "timing: 'promptly' is a 20 s bound"},
 	}
 	if replay != "" {
 		if b, err := os.ReadFile(replay); err == nil {
+			var ft struct {
+				Violation struct {
+					Input c07TaintCase `json:"input"`
+				} `json:"violation"`
+			}
+			if json.Unmarshal(b, &ft) == nil && ft.Violation.Input.Stream == "tainted_objects" {
+				c07CheckTaint(run, ft.Violation.Input)
+				return spec
+			}
 			var f struct {
 				Violation struct {
 					Input struct {
@@ -331,6 +340,16 @@ func runC07(run *Run, replay string) Spec {
 		run.Violate(Violation{Kind: "oracle", Clause: "layout_builds", Detail: err.Error()}, "")
 		return spec
 	}
+	// tainted objects: filterOutTainted on generated items with marked entities (c07t.go)
+	nTaint := 2000
+	if run.Tier == "thorough" {
+		nTaint = 100000
+	}
+	parallelFor(nTaint, 8, func(k int) {
+		if run.NViolations() < 6 {
+			c07CheckTaint(run, c07GenTaintCase(subRng(run.Seed+17, k)))
+		}
+	})
 	n := 500
 	if run.Tier == "thorough" {
 		n = 15000
